@@ -4,6 +4,7 @@ Values are described by JSON-able recipes (so that a failing case can be written
 built into real Python objects, pushed bare and wrapped in every event kind through a real
 BoboReceiver configured with every validator class, and observed at two recording subscribers.
 The Coq model (Model/Validator.v, run_C18) is evaluated on an encoding of the same objects."""
+import itertools
 import json
 import sys
 from decimal import Decimal
@@ -883,10 +884,92 @@ def run(ctx, res):
         for recipe in (route_values if spec[0] != "type" else route_values[:6]):
             other_routes(spec, recipe, res)
     setup_defaults(res)
+    shared_half(res, corpus)
 
     res.failures.sort(key=lambda f: (case_size(f["case"]) if "steps" in f["case"]
                                      else (1, nodes(f["case"]["value"]))))
     del res.failures[2000:]
+
+
+# ---------------------------------------------------------------------------- one instance, two users
+def shared_verdicts(spec, rx, ry):
+    """One validator instance used by two receivers in two threads (each receiver holds only its own lock).  Thread A
+    judges x; at every library call the validator makes on A's behalf (json.dumps, jsonschema validate: the points
+    where another thread can run in between two steps of is_valid) thread B judges y on the SAME instance, to
+    completion (B is waited for at most 2 s, so a validator that serialises its users is not penalised).
+    Returns (A's verdict alone, A's verdict interleaved, B's verdict alone, B's verdicts interleaved)."""
+    import threading
+    import json as _json
+    import jsonschema as _js
+    import bobocep.cep.engine.receiver.validator as V
+    try:
+        val = make_validator(spec)
+    except V.BoboValidatorError:
+        return None
+    x, y = build(rx), build(ry)
+
+    def verdict(d):
+        try:
+            return bool(val.is_valid(d))
+        except V.BoboValidatorError:
+            return "refused-schema"
+    alone_x, alone_y = verdict(x), verdict(y)
+    a_id = threading.get_ident()
+    b_out = []
+    busy = [False]
+
+    def other():
+        if threading.get_ident() != a_id or busy[0]:
+            return
+        busy[0] = True
+        t = threading.Thread(target=lambda: b_out.append(verdict(y)), daemon=True)
+        t.start()
+        t.join(2)
+        busy[0] = False
+
+    def hooked(fn):
+        def f(*a, **k):
+            other()
+            try:
+                return fn(*a, **k)
+            finally:
+                other()
+        return f
+    saved = []
+    for mod, name in ((V, "dumps"), (V, "jsonschema_validate"), (_json, "dumps"), (_js, "validate")):
+        if hasattr(mod, name):
+            saved.append((mod, name, getattr(mod, name)))
+    try:
+        for mod, name, fn in saved:
+            setattr(mod, name, hooked(fn))
+        inter_x = verdict(x)
+    finally:
+        for mod, name, fn in saved:
+            setattr(mod, name, fn)
+    return alone_x, inter_x, alone_y, b_out
+
+
+def shared_half(res, corpus):
+    vals = [r for r in corpus if r[0] in ("int", "str", "dict", "list", "bytes", "set", "float", "none", "bool")][:10]
+    n = 0
+    for spec in VALIDATORS:
+        if spec[0] == "type" and len(spec[1]) > 1:
+            continue
+        for rx, ry in itertools.permutations(vals, 2):
+            r = shared_verdicts(spec, rx, ry)
+            if r is None:
+                continue
+            n += 1
+            ax, ix, ay, by = r
+            if n % 7 == 0:
+                res.note_case(("shared", repr(spec), repr(rx), repr(ry)), ax != ay)
+            if ix != ax or any(b != ay for b in by):
+                res.failures.append(dict(signature="verdict-depends-on-another-user-of-the-validator",
+                                         what="one %s instance used by two threads: alone it gives %r -> %s and %r -> %s; with the second "
+                                              "user running in between the validator's steps the first got %s, the second %s"
+                                              % (spec, rx, ax, ry, ay, ix, by),
+                                         case=dict(shared=True, validator=spec, value=rx, other=ry)))
+    res.extra["shared_instance_interleavings"] = n
 
 
 # ---------------------------------------------------------------------------- replay
@@ -908,6 +991,11 @@ def replay(obj):
             print(json.dumps(obj, indent=1)[:3000])
             return 1
         case = ms[0]["case"]
+    if case.get("shared"):
+        ax, ix, ay, by = shared_verdicts(case["validator"], case["value"], case["other"])
+        print("validator:", case["validator"], " first user's value:", case["value"], " second user's value:", case["other"])
+        print("alone: %s / %s; interleaved: %s / %s" % (ax, ay, ix, by))
+        return 1 if (ix != ax or any(b != ay for b in by)) else 0
     if "steps" not in case:
         if "value" not in case:
             print(obj)
